@@ -125,16 +125,30 @@ func loadFile(sys fs.FS, fname string) (pkgList, error) {
 }
 
 func checkConstraint(s string) (bool, error) {
-	// a //go:build line may follow blank lines and other line comments, but precedes the package clause
+	// a //go:build line may follow blank lines and other comments (line and block comments), but precedes the
+	// package clause
+	inBlock := false
+lines:
 	for _, line := range strings.Split(s, "\n") {
 		line = strings.TrimSpace(line)
-		if line == "" {
-			continue
-		}
-		if !strings.HasPrefix(line, "//") {
-			break
-		}
-		if !constraint.IsGoBuild(line) {
+		if inBlock || !constraint.IsGoBuild(line) {
+			for line != "" { // skip the comments on this line; anything else ends the header
+				if inBlock {
+					end := strings.Index(line, "*/")
+					if end < 0 {
+						continue lines
+					}
+					inBlock = false
+					line = strings.TrimSpace(line[end+2:])
+				} else if strings.HasPrefix(line, "//") {
+					continue lines
+				} else if strings.HasPrefix(line, "/*") {
+					inBlock = true
+					line = line[2:]
+				} else {
+					break lines
+				}
+			}
 			continue
 		}
 		expr, err := constraint.Parse(line)
